@@ -275,6 +275,9 @@ func (n *Node) Head() string {
 					c = "bool-comparison"
 				}
 			}
+			if k.Match != "" {
+				c += " " + k.Match
+			}
 			return "paren " + c + kinds(k)
 		case "num":
 			return "scalar"
@@ -804,6 +807,10 @@ func (g *gen) binScalar(op string, boolMod bool, scalarLeft bool, child *Node) *
 		c := *child
 		c.Paren = true
 		child = &c
+	}
+	if op == "^" {
+		// small exponents: x^600 only tests overflow to +Inf, which the special-valued family covers
+		num.Val = pick(g, []float64{2, 0.5, 3, -1, 0, 1})
 	}
 	if scalarLeft {
 		n.L, n.R = num, child
